@@ -103,7 +103,7 @@ func (c *IPClient) measureClockOffsetIP(ctx context.Context, mtrcs *ipClientMetr
 	timestamp time.Time, offset time.Duration, err error) {
 	laddr, ok := netip.AddrFromSlice(localAddr.IP)
 	if !ok {
-		return time.Time{}, 0, err
+		return time.Time{}, 0, errUnexpectedAddrType
 	}
 	var lc net.ListenConfig
 	pconn, err := lc.ListenPacket(ctx, "udp", netip.AddrPortFrom(laddr, 0).String())
@@ -136,6 +136,10 @@ func (c *IPClient) measureClockOffsetIP(ctx context.Context, mtrcs *ipClientMetr
 			return time.Time{}, 0, err
 		}
 		remoteAddr.IP = net.ParseIP(ntskeData.Server)
+		if remoteAddr.IP == nil {
+			c.Log.LogAttrs(ctx, slog.LevelInfo, "failed to parse key exchange data: unexpected server address")
+			return time.Time{}, 0, errUnexpectedAddrType
+		}
 		remoteAddr.Port = int(ntskeData.Port)
 	}
 	ip4 := remoteAddr.IP.To4()
